@@ -1955,4 +1955,129 @@ theorem sdcorr_inverse' {sqrt : Rat → Rat} {vals : Dict} {rvs : RVs Entry} {F 
     apply applyF_not_assigned
     intro p hp e
     exact hex (inv_names_of_fwd h hag ⟨p, hp, e⟩)
+
+section selection
+variable {α : Type} [Zero α] [DecidableEq α]
+
+
+theorem nodup_eraseDups (l : List String) : l.eraseDups.Nodup := by
+  suffices h : ∀ n (l : List String), l.length ≤ n → l.eraseDups.Nodup from h l.length l (Nat.le_refl _)
+  intro n
+  induction n with
+  | zero =>
+    intro l hl
+    have : l = [] := List.length_eq_zero_iff.mp (Nat.le_zero.mp hl)
+    subst this; simp
+  | succ n ih =>
+    intro l hl
+    cases l with
+    | nil => simp
+    | cons a as =>
+      rw [List.eraseDups_cons, List.nodup_cons]
+      refine ⟨?_, ih _ ?_⟩
+      · rw [List.mem_eraseDups]
+        simp
+      · have := List.length_filter_le (fun b => !b == a) as
+        simp at hl
+        omega
+
+/-- Two lists with the same members have duplicate-free forms of the same length (`len(set(index))`). -/
+theorem eraseDups_length_of_same_mem {l l' : List String} (h : ∀ x, x ∈ l ↔ x ∈ l') :
+    l.eraseDups.length = l'.eraseDups.length := by
+  apply Nat.le_antisymm
+  · apply List.Nodup.length_le_of_subset (nodup_eraseDups l)
+    intro x hx
+    exact List.mem_eraseDups.mpr ((h x).mp (List.mem_eraseDups.mp hx))
+  · apply List.Nodup.length_le_of_subset (nodup_eraseDups l')
+    intro x hx
+    exact List.mem_eraseDups.mpr ((h x).mpr (List.mem_eraseDups.mp hx))
+
+theorem contains_congr {l l' : List String} (h : ∀ x, x ∈ l ↔ x ∈ l') (x : String) : l.contains x = l'.contains x := by
+  by_cases hx : x ∈ l
+  · simp [hx, (h x).mp hx]
+  · have : x ∉ l' := fun h' => hx ((h x).mpr h')
+    simp [hx, this]
+
+theorem unjoinDist_congr {inds inds' : List String} (h : ∀ x, inds.contains x = inds'.contains x) (d : Dist α) :
+    unjoinDist inds d = unjoinDist inds' d := by
+  unfold unjoinDist
+  simp only [h]
+
+theorem unjoin_congr {inds inds' : List String} (h : ∀ x, inds.contains x = inds'.contains x) (r : RVs α) :
+    unjoin r inds = unjoin r inds' := by
+  unfold unjoin
+  congr 1
+  funext d
+  exact unjoinDist_congr h d
+
+theorem getitem_congr {ind ind' : List String} (h : ∀ x, ind.contains x = ind'.contains x) (r : RVs α) :
+    getitem r ind = getitem r ind' := by
+  unfold getitem
+  have h1 : (names r).filter (fun n => !ind.contains n) = (names r).filter (fun n => !ind'.contains n) := by
+    simp only [h]
+  have h2 : firstNameIn (α := α) ind = firstNameIn ind' := by
+    funext d
+    unfold firstNameIn
+    cases d.names with
+    | nil => rfl
+    | cons n _ => exact h n
+  simp only [h1, h2]
+
+theorem distGetitem_congr (d : Dist α) {index index' : List String} (hp : index'.Perm index) :
+    distGetitem d index' = distGetitem d index := by
+  have hm : ∀ x, x ∈ index'.eraseDups ↔ x ∈ index.eraseDups := by
+    intro x; rw [List.mem_eraseDups, List.mem_eraseDups]; exact hp.mem_iff
+  have hc := contains_congr hm
+  have hl : index'.eraseDups.length = index.eraseDups.length :=
+    eraseDups_length_of_same_mem (fun x => hp.mem_iff)
+  have hany : index'.eraseDups.any (fun a => !d.names.contains a) = index.eraseDups.any (fun a => !d.names.contains a) := by
+    rw [Bool.eq_iff_iff]
+    simp only [List.any_eq_true]
+    constructor
+    · rintro ⟨x, hx, hb⟩; exact ⟨x, (hm x).mp hx, hb⟩
+    · rintro ⟨x, hx, hb⟩; exact ⟨x, (hm x).mpr hx, hb⟩
+  unfold distGetitem
+  rw [hp.length_eq, hany, hl]
+  have : pickDist d (fun x => index'.eraseDups.contains x) = pickDist d (fun x => index.eraseDups.contains x) := by
+    simp only [hc]
+  rw [this]
+
+theorem placeJoined_congr {inds inds' : List String} (h : ∀ x, inds.contains x = inds'.contains x) (jd : Dist α)
+    (U : RVs α) (first : Bool) : placeJoined inds jd U first = placeJoined inds' jd U first := by
+  induction U generalizing first with
+  | nil => rfl
+  | cons d U ih =>
+    unfold placeJoined
+    simp only [h, ih]
+
+theorem join_congr {inds inds' : List String} (hm : ∀ x, x ∈ inds ↔ x ∈ inds') (r : RVs α) (f : Fill α) :
+    join r inds f = join r inds' f := by
+  have hc := contains_congr hm
+  have hany : inds.any (fun a => !(names r).contains a) = inds'.any (fun a => !(names r).contains a) := by
+    rw [Bool.eq_iff_iff]
+    simp only [List.any_eq_true]
+    constructor
+    · rintro ⟨x, hx, hb⟩; exact ⟨x, (hm x).mp hx, hb⟩
+    · rintro ⟨x, hx, hb⟩; exact ⟨x, (hm x).mpr hx, hb⟩
+  have hlen : (inds.length = 0) ↔ (inds'.length = 0) := by
+    rw [List.length_eq_zero_iff, List.length_eq_zero_iff]
+    constructor
+    · intro e; subst e
+      cases inds' with
+      | nil => rfl
+      | cons a t => exact absurd ((hm a).mpr List.mem_cons_self) (by simp)
+    · intro e; subst e
+      cases inds with
+      | nil => rfl
+      | cons a t => exact absurd ((hm a).mp List.mem_cons_self) (by simp)
+  unfold join
+  rw [hany, getitem_congr hc, unjoin_congr hc]
+  by_cases h0 : inds.length = 0
+  · simp only [h0, hlen.mp h0, if_true]
+  · have h0' : ¬ inds'.length = 0 := fun e => h0 (hlen.mpr e)
+    simp only [h0, h0', if_false]
+    cases getitem r inds' with
+    | nil => rfl
+    | cons j0 rest => simp only [placeJoined_congr hc]
+end selection
 end Pharmpy.C11
